@@ -144,51 +144,88 @@ class CrashProfile(Profile):
             searches.append("/".join(segs[:-2] + ["*", "*"]) if len(segs) > 2 else "*/*")
         return others, sorted(set(searches))
 
-    def _recover(self, run, cfg, s, old, new, others, searches, tag, retry_value):
+    def _recovery_image(self, run, warm=None):
+        """A process forked from the pristine image whose pure caches (typing, unfolding, path mapping) are
+        warm but which holds nothing that depends on disk content (spil caches no data). Recovery checks run
+        in forks of it; every 8th case (and the first of each kind) uses a genuinely fresh executor instead,
+        so 'new process' stays literal on a sample."""
+        R = run.scratch.get("R")
+        if R is None:
+            R = run.new_executor()
+            run.scratch["R"] = R
+        if warm:
+            R.obs(X.seq(*warm))
+        return R
+
+    def _observe_seq(self, run, exprs, fresh, knobs=None):
+        if fresh:
+            F = run.new_executor(**(knobs or {}))
+            try:
+                obs = run.do(X.seq(*exprs), ex=F)
+            finally:
+                F.close()
+            run.stats["recoveries_in_fresh_process"] += 1
+        else:
+            br = self._recovery_image(run).branch(X.seq(*exprs), None, knobs)
+            run.stats["calls"] += 1
+            run.logev("recover", br["exit"], br["obs"])
+            if br["exit"] != 0 or br["obs"] is None:
+                from ..executor import HarnessError
+                raise HarnessError("recovery branch failed: %r" % (br,))
+            for k, v in (br.get("fired") or {}).items():
+                run.fired[k] += v
+            obs = br["obs"]
+            run.stats["recoveries_in_recovery_image"] += 1
+        return obs["~seq"]
+
+    def _recover(self, run, cfg, s, old, new, others, searches, tag, retry_value, fresh=True):
         """Recovery invariants R1-R4 in a new process. Returns the surviving data."""
-        F = run.new_executor()
-        try:
-            g = getter(cfg)
-            obs = run.do(X.meth(g, "get_data", s), ex=F)
-            d = X.undict(obs)
-            run.check(d is not None, "C17.R1.read_fails", {"at": tag, "sid": s, "got": obs})
-            sidv = d.pop("sid", None)
-            run.check(sidv == s, "C17.R1.sid_entry", {"at": tag, "sid": s, "got": sidv})
-            run.check(d == old or d == new, "C17.R1.old_or_new",
-                      {"at": tag, "sid": s, "got": d, "old": old, "new": new})
-            survivor = d
-            run.stats["survivor_new" if (d == new and new != old) else "survivor_old"] += 1
-            # R2: every other Sid's data untouched
-            for y in others:
-                want = run.store.data(cfg, y)
-                obs = run.do(X.meth(g, "get_data", y), ex=F)
-                dy = X.undict(obs)
-                run.check(dy is not None, "C17.R2.other_read_fails", {"at": tag, "sid": y, "got": obs})
-                dy.pop("sid", None)
-                run.check(dy == want, "C17.R2.other_changed", {"at": tag, "sid": y, "got": dy, "want": want})
-            # R3: searches still answer, leftovers are invisible
-            for q in searches:
-                obs = run.do(X.meth(finder_paths(cfg), "find", q), ex=F)
-                got = X.uris(obs)
-                run.check(got is not None, "C17.R3.search_fails", {"at": tag, "search": q, "got": obs})
-                want = run.store.find_simple(cfg, q)
-                run.check(set(got) == want and len(got) == len(set(got)), "C17.R3.search_changed",
-                          {"at": tag, "search": q, "got": sorted(got), "want": sorted(want)})
-            obs = run.do(X.meth(g, "get", searches[0]), ex=F)
-            run.check(X.items(obs) is not None, "C17.R3.get_fails", {"at": tag, "search": searches[0], "got": obs})
-            # R4: bounded liveness -- faults have stopped, the next set succeeds at once
-            obs = run.do(X.meth(writer(cfg), "set", s, retry=retry_value), ex=F)
-            run.check(obs is True, "C17.R4.retry_fails", {"at": tag, "sid": s, "got": obs})
-            obs = run.do(X.meth(g, "get_data", s), ex=F)
-            d2 = X.undict(obs)
-            run.check(d2 is not None, "C17.R4.read_after_retry_fails", {"at": tag, "got": obs})
-            d2.pop("sid", None)
-            want = dict(survivor)
-            want["retry"] = retry_value
-            run.check(d2 == want, "C17.R4.retry_data", {"at": tag, "got": d2, "want": want})
-            return survivor
-        finally:
-            F.close()
+        g = getter(cfg)
+        exprs = [X.meth(g, "get_data", s)]
+        exprs += [X.meth(g, "get_data", y) for y in others]
+        exprs += [X.meth(finder_paths(cfg), "find", q) for q in searches]
+        exprs += [X.call("list", X.meth(g, "get", searches[0]))]
+        exprs += [X.meth(writer(cfg), "set", s, retry=retry_value), X.meth(g, "get_data", s)]
+        seq = self._observe_seq(run, exprs, fresh)
+        it = iter(seq)
+        obs = next(it)
+        d = X.undict(obs)
+        run.check(d is not None, "C17.R1.read_fails", {"at": tag, "sid": s, "got": obs})
+        sidv = d.pop("sid", None)
+        run.check(sidv == s, "C17.R1.sid_entry", {"at": tag, "sid": s, "got": sidv})
+        run.check(d == old or d == new, "C17.R1.old_or_new",
+                  {"at": tag, "sid": s, "got": d, "old": old, "new": new})
+        survivor = d
+        run.stats["survivor_new" if (d == new and new != old) else "survivor_old"] += 1
+        # R2: every other Sid's data untouched
+        for y in others:
+            want = run.store.data(cfg, y)
+            obs = next(it)
+            dy = X.undict(obs)
+            run.check(dy is not None, "C17.R2.other_read_fails", {"at": tag, "sid": y, "got": obs})
+            dy.pop("sid", None)
+            run.check(dy == want, "C17.R2.other_changed", {"at": tag, "sid": y, "got": dy, "want": want})
+        # R3: searches still answer, leftovers are invisible
+        for q in searches:
+            obs = next(it)
+            got = X.uris(obs)
+            run.check(got is not None, "C17.R3.search_fails", {"at": tag, "search": q, "got": obs})
+            want = run.store.find_simple(cfg, q)
+            run.check(set(got) == want and len(got) == len(set(got)), "C17.R3.search_changed",
+                      {"at": tag, "search": q, "got": sorted(got), "want": sorted(want)})
+        obs = next(it)
+        run.check(X.items(obs) is not None, "C17.R3.get_fails", {"at": tag, "search": searches[0], "got": obs})
+        # R4: bounded liveness -- faults have stopped, the next set succeeds at once
+        obs = next(it)
+        run.check(obs is True, "C17.R4.retry_fails", {"at": tag, "sid": s, "got": obs})
+        obs = next(it)
+        d2 = X.undict(obs)
+        run.check(d2 is not None, "C17.R4.read_after_retry_fails", {"at": tag, "got": obs})
+        d2.pop("sid", None)
+        want = dict(survivor)
+        want["retry"] = retry_value
+        run.check(d2 == want, "C17.R4.retry_data", {"at": tag, "got": d2, "want": want})
+        return survivor
 
     def _points(self, trace, tier):
         pts = [{"after": -1}]
@@ -224,6 +261,10 @@ class CrashProfile(Profile):
         run.stats["writes_enumerated"] += 1
         w.restore("cw")
         pts = self._points(trace, run.tier) if step["points"] == "all" else step["points"]
+        g = getter(cfg)
+        self._recovery_image(run, warm=[X.meth(g, "get_data", y) for y in [s] + others] +
+                             [X.meth(finder_paths(cfg), "find", q) for q in searches] +
+                             [X.call("list", X.meth(g, "get", searches[0]))])
         shape = "first" if not old else ("overwrite" if set(step["data"]) & set(old) else "add")
         run.sample({"write": [step["how"], s, step["data"]], "trace": trace, "crash_points": len(pts)})
         keep = step.get("keep")
@@ -237,6 +278,7 @@ class CrashProfile(Profile):
             tag = json.dumps(plan, sort_keys=True)
             br = run.E.branch(e, plan)
             run.logev("branch", plan, br["exit"], br["trace"])
+            kind = "none"
             if br["exit"] != 77:
                 # the plan did not fire (trace shorter than planned): only legal for a replayed
                 # plan against a changed tree; count it, the completed write is then just 'new'
@@ -251,10 +293,14 @@ class CrashProfile(Profile):
                 else:
                     run.fired["crash_after_effect:" + trace[plan["after"]][0] if plan["after"] < len(trace) else "crash_after_effect"] += 1
                     kind = "after:" + (trace[plan["after"]][0] if plan["after"] < len(trace) else "?")
-                run.state_mark("cp", shape, kind, [t[0] for t in trace],
-                               ("k", min(plan.get("bytes", 0), 3)) if "at" in plan else None)
+                run.case_mark("cp", shape, kind, [t[0] for t in trace],
+                              ("k", min(plan.get("bytes", 0), 3)) if "at" in plan else None)
+                run.state_mark("pre", run.world.digest() if False else shape, len(others))
             run.stats["crash_points"] += 1
-            survivor = self._recover(run, cfg, s, old, new, others, searches, tag, n)
+            seen = run.scratch.setdefault("kinds_seen", set())
+            fresh = (n % 8 == 1) or (kind not in seen) or run.params.get("all_fresh", False)
+            seen.add(kind)
+            survivor = self._recover(run, cfg, s, old, new, others, searches, tag, n, fresh=fresh)
             if keep is not None and plan == keep:
                 kept = (survivor, n)
                 w.snapshot("kept")
@@ -308,40 +354,47 @@ class CrashProfile(Profile):
             else:
                 faults = {rel: mode[0]}
             run.stats["corruptions"] += 1
-            run.state_mark("corrupt", mode[0], min(mode[1], 3) if len(mode) > 1 else None)
+            run.case_mark("corrupt", mode[0], min(mode[1], 3) if len(mode) > 1 else None, n > 100)
             tag = json.dumps(mode)
-            F = run.new_executor(read_faults=faults)
+            fresh = (run.stats["corruptions"] % 8 == 1) or mode[0] != "trunc"
+            g = getter(cfg)
+            has_getter = (run.m.routing.get(run.m.natural_type(s)) or {}).get("getter") == "GetFromPaths"
+            use_all = cfg == run.m.default_config and has_getter
+            exprs = [X.meth(g, "get_data", s), X.meth(g, "get_data", s, ["comment", "zzz"])]
+            if use_all:
+                exprs += [X.meth(X.call("GetFromAll"), "get_data", s), X.meth(X.sid(s), "get_attr", "comment")]
+            exprs += [X.meth(g, "get_data", y) for y in others]
+            for q in searches:
+                exprs += [X.meth(finder_paths(cfg), "find", q), X.call("list", X.meth(g, "get", q))]
             try:
-                g = getter(cfg)
-                obs = run.do(X.meth(g, "get_data", s), ex=F)
-                d = X.undict(obs)
-                run.check(d == {"sid": s}, "C17.R5.corrupt_read", {"mode": tag, "sid": s, "got": obs})
-                obs = run.do(X.meth(g, "get_data", s, ["comment", "zzz"]), ex=F)
+                it = iter(self._observe_seq(run, exprs, fresh, {"read_faults": faults} if faults else None))
+                obs = next(it)
+                run.check(X.undict(obs) == {"sid": s}, "C17.R5.corrupt_read", {"mode": tag, "sid": s, "got": obs})
+                obs = next(it)
                 run.check(X.undict(obs) == {"comment": None, "zzz": None}, "C17.R5.corrupt_read_attrs",
                           {"mode": tag, "sid": s, "got": obs})
-                if cfg == run.m.default_config:
-                    obs = run.do(X.meth(X.call("GetFromAll"), "get_data", s), ex=F)
+                if use_all:
+                    obs = next(it)
                     run.check(X.undict(obs) == {"sid": s}, "C17.R5.corrupt_read_all", {"mode": tag, "got": obs})
-                    obs = run.do(X.meth(X.sid(s), "get_attr", "comment"), ex=F)
+                    obs = next(it)
                     run.check(obs is None, "C17.R5.corrupt_get_attr", {"mode": tag, "got": obs})
                 for y in others:
                     want = st.data(cfg, y)
-                    obs = run.do(X.meth(g, "get_data", y), ex=F)
+                    obs = next(it)
                     dy = X.undict(obs)
                     run.check(dy is not None, "C17.R5.other_read_fails", {"mode": tag, "sid": y, "got": obs})
                     dy.pop("sid", None)
                     run.check(dy == want, "C17.R5.other_changed", {"mode": tag, "sid": y, "got": dy, "want": want})
                 for q in searches:
-                    obs = run.do(X.meth(finder_paths(cfg), "find", q), ex=F)
+                    obs = next(it)
                     got = X.uris(obs)
                     run.check(got is not None, "C17.R5.search_fails", {"mode": tag, "search": q, "got": obs})
                     run.check(set(got) == st.find_simple(cfg, q), "C17.R5.search_changed",
                               {"mode": tag, "search": q, "got": sorted(got)})
-                    obs = run.do(X.meth(g, "get", q), ex=F)
+                    obs = next(it)
                     recs = X.items(obs)
                     run.check(recs is not None, "C17.R5.get_fails", {"mode": tag, "search": q, "got": obs})
             finally:
-                F.close()
                 if os.path.isdir(p):
                     shutil.rmtree(p)
                 with open(p, "wb") as f:
